@@ -798,7 +798,7 @@ func (m *model) raceValid(op Op) bool {
 		t := idType(op.ID)
 		in := m.in[t]
 		k := (op.ID - firstIn(m.p.Persp, t)) / 4
-		return in.acceptor == op.W && k >= in.opened && k+1 <= in.adv
+		return in.acceptor == op.W && k >= in.opened && k < in.opened+64 && k+1 <= in.adv
 	}
 	return false
 }
